@@ -2,7 +2,7 @@
    antisymmetry, totality of CmpTotal, agreement of CmpTotal with Cmp,
    transitivity within exact numbers / within floats / non-numeric values,
    agreement with the documented orders for exact numbers, refutation
-   witnesses for the mixed exact/inexact cases and for sliced lists. *)
+   witnesses for the mixed exact/inexact cases. *)
 From verif Require Import lib.Base model.C08_Value model.C09 proofs.C08_Value_proofs.
 From Coq Require Import QArith Arith.
 Close Scope Q_scope.
@@ -316,15 +316,10 @@ Proof.
 Qed.
 
 (* ------------------------------------------------------------------ *)
-(* CmpTotal agrees with Cmp wherever Cmp is defined — for values without
-   sliced lists *)
-Lemma has_sublist_list s l : has_sublist (VList s l) = s || existsb has_sublist l.
-Proof. reflexivity. Qed.
-
+(* CmpTotal agrees with Cmp wherever Cmp is defined *)
 Definition same_kind (a b : value) : bool :=
   match a, b with
-  | VNil, VNil | VBool _, VBool _ | VStr _, VStr _ | VMap _, VMap _ => true
-  | VList s _, VList s' _ => Bool.eqb s s'
+  | VNil, VNil | VBool _, VBool _ | VStr _, VStr _ | VMap _, VMap _ | VList _ _, VList _ _ => true
   | VOpaque t _, VOpaque t' _ => N.eqb t t'
   | _, _ => is_num a && is_num b
   end.
@@ -332,43 +327,34 @@ Definition same_kind (a b : value) : bool :=
 Lemma same_kind_tag a b : same_kind a b = true -> tag a = tag b.
 Proof.
   destruct a, b; try discriminate; try reflexivity; cbn.
-  - intros H. apply Bool.eqb_prop in H. now subst.
-  - intros H. apply N.eqb_eq in H. now subst.
+  intros H. apply N.eqb_eq in H. now subst.
 Qed.
 
 Lemma cmp_total_agrees_n n : forall rk a b,
-  (vsize a < n)%nat -> has_sublist a = false -> has_sublist b = false ->
-  cmp a b <> OUn -> cmp_total rk a b = cmp a b.
+  (vsize a < n)%nat -> cmp a b <> OUn -> cmp_total rk a b = cmp a b.
 Proof.
-  induction n as [|n IH]; intros rk a b Sz Sa Sb H; [lia|].
+  induction n as [|n IH]; intros rk a b Sz H; [lia|].
   unfold cmp, cmp_total in *. rewrite cmpg_unfold. rewrite cmp_is_inner in *.
   assert (K : same_kind a b = true).
   { destruct a, b; try reflexivity; try (exfalso; apply H; reflexivity);
-      try (cbn in H; cbn; destruct (N.eqb ty ty0) eqn:E; [reflexivity|]; cbn in H; now rewrite ?andb_false_l in H).
-    rewrite has_sublist_list in Sa, Sb. apply orb_false_iff in Sa as [-> _].
-    apply orb_false_iff in Sb as [-> _]. reflexivity. }
+      try (cbn in H; cbn; destruct (N.eqb ty ty0) eqn:E; [reflexivity|]; cbn in H; now rewrite ?andb_false_l in H). }
   unfold rkcmp. rewrite (same_kind_tag a b K), Z.compare_refl.
   assert (G : inner rk true a b = inner (fun _ => 0%Z) false a b).
   { destruct a, b; try reflexivity. cbn [inner].
-    rewrite has_sublist_list in Sa, Sb.
-    apply orb_false_iff in Sa as [_ Sa]. apply orb_false_iff in Sb as [_ Sb].
     cbn [inner] in H.
     assert (Hs : forall p, In p l -> (vsize p < n)%nat).
     { intros p Hp. pose proof (vsize_list_in sub l p Hp). lia. }
-    clear Sz K. revert l0 Sb H. induction l as [|p l IHl]; intros [|q l0] Sb H; cbn in *; try reflexivity.
-    apply orb_false_iff in Sa as [Sp Sa]. apply orb_false_iff in Sb as [Sq Sb].
+    clear Sz K. revert l0 H. induction l as [|p l IHl]; intros [|q l0] H; cbn in *; try reflexivity.
     assert (Hpq : cmpg (fun _ => 0%Z) false p q <> OUn).
     { intros C. rewrite C in H. now apply H. }
-    pose proof (IH rk p q (Hs p (or_introl eq_refl)) Sp Sq Hpq) as E.
+    pose proof (IH rk p q (Hs p (or_introl eq_refl)) Hpq) as E.
     unfold cmp_total, cmp in E. rewrite E.
     destruct (cmpg (fun _ => 0%Z) false p q); try reflexivity.
     apply IHl; auto. }
   rewrite G. destruct (inner (fun _ => 0%Z) false a b); try reflexivity. now exfalso.
 Qed.
 
-Theorem cmp_total_agrees_partial rk a b :
-  has_sublist a = false -> has_sublist b = false ->
-  cmp a b <> OUn -> cmp_total rk a b = cmp a b.
+Theorem cmp_total_agrees rk a b : cmp a b <> OUn -> cmp_total rk a b = cmp a b.
 Proof. apply (cmp_total_agrees_n (S (vsize a))). lia. Qed.
 
 (* ------------------------------------------------------------------ *)
@@ -493,15 +479,11 @@ Qed.
 Lemma tag_num v : tag v = 2 -> is_num v = true.
 Proof.
   destruct v; intros H; try reflexivity; try discriminate H.
-  - destruct sub; discriminate H.
-  - exfalso. unfold tag in H. lia.
+  exfalso. unfold tag in H. lia.
 Qed.
 
 Ltac tagkill H :=
-  first [ discriminate H
-        | (exfalso; unfold tag in H; lia)
-        | (match type of H with context [VList ?s _] => destruct s end;
-           first [discriminate H | (exfalso; unfold tag in H; lia)]) ].
+  first [ discriminate H | (exfalso; unfold tag in H; lia) ].
 
 Section TransTotal.
   Variable p : value -> bool.
@@ -676,10 +658,6 @@ Qed.
 Lemma cmp_rat_rounded_refuted_w :
   exists a b, spec_cmp a b = Some OGt /\ cmp a b = OEq.
 Proof. exists (VRat (mkrat 1 3)), (VFloat 4599676419421066581). vm_compute. auto. Qed.
-
-Lemma cmp_total_agrees_refuted_w :
-  exists a b, wf a /\ wf b /\ a ~= b /\ cmp a b = OEq /\ cmp_total rk0 a b = OLt.
-Proof. exists (VList false []), (VList true []). vm_compute. auto 10. Qed.
 
 (* ------------------------------------------------------------------ *)
 (* the oracle, restated as propositions *)
